@@ -1,4 +1,5 @@
-import MgpuProofs.C06Mem
+import Lean
+import MgpuProofs.C06MemBody
 import MgpuProofs.Props.C06
 import MgpuModel.C06
 /-! # C06 — memory / LDS handlers: `LoadOrStore` is a decided property of every implemented DS / FLAT
@@ -12,6 +13,11 @@ handler, and what an atomic would need
 * `seq_eq_par_race_free` weakens the hypothesis to `RaceFree` (no active lane reads an address another
   active lane stores to), which `LoadOrStore` implies (`load_or_store_is_race_free`) — this is what an
   atomic / read-modify-write DS or FLAT op would have to meet;
+* `memory_bodies_uniform`, `memory_bodies_load_or_store`, `memory_handlers_instantiate`: the DS / FLAT lane
+  bodies are translated too (`translate/lanemem.go`, byte slices as lists); each is proved independent of the
+  loop variable and of what an earlier lane left in the staging array declared outside the loop, and proved
+  load-only or store-only — so `LoadOrStore` of the skeleton instance is a theorem about the translated code,
+  tied to the real ALUs by the `c06 mbody` correspondence;
 * `atomic_needs_race_freedom` shows the hypothesis cannot be dropped: `ds_add_rtn_u32` with two lanes on
   one address returns in lane 1 what lane 0 stored; `atomic_race_free_of_distinct` shows pairwise distinct
   addresses are enough. -/
@@ -123,5 +129,128 @@ example : ∀ l k, l < 64 → k < 64 → (fun i => decide (i < 2)) l = true → 
   have hl2 : l = 0 ∨ l = 1 := by omega
   have hk2 : k = 0 ∨ k = 1 := by omega
   rcases hl2 with rfl | rfl <;> rcases hk2 with rfl | rfl <;> simp_all [exAtomS]
+
+/-! ## The DS / FLAT lane bodies themselves, translated (`Gen.Lane.memHandlers`, `translate/lanemem.go`) -/
+
+open Gen.Lane
+set_option linter.unusedSimpArgs false
+set_option maxRecDepth 4000
+
+macro "mem_uniform" "[" ds:Lean.Parser.Tactic.simpLemma,* "]" : tactic =>
+  `(tactic| (
+    intro u r
+    dsimp only [$ds,*]
+    intro g
+    simp [add_sub_self32, GoB.copyInto, GoB.readMem, GoB.setByte, GoB.getByte, GoB.le32, GoB.le64, List.ofFn_succ, List.range_succ,
+      List.replicate, mro_dst_ite, mro_loads_ite, mro_stores_ite, mro_fault_ite, mro_stage_ite, length_ite]))
+
+macro "mem_load_or_store" "[" ds:Lean.Parser.Tactic.simpLemma,* "]" : tactic =>
+  `(tactic| first
+    | (left; intro u r; simp [$ds,*, mro_stores_ite]; done)
+    | (right; intro u r m; exact ⟨by simp [$ds,*, mro_loads_ite], rfl⟩))
+
+open Lean Elab Tactic Meta in
+/-- goal `∀ h ∈ [mh_a, mh_b, …], P h`: peel the list and run `tac [mh_x, mraw_x]` on each element; a
+    failure names the handler -/
+def peelMemHandlers (what : String) (run : Ident → Ident → TacticM Unit) : TacticM Unit := do
+  let mut fuel := 10000
+  while fuel > 0 do
+    fuel := fuel - 1
+    let g ← getMainGoal
+    let t ← instantiateMVars (← g.getType)
+    let .forallE _ _ body _ := t | throwError "peelMemHandlers: unexpected goal {t}"
+    let .forallE _ memTy _ _ := body | throwError "peelMemHandlers: unexpected goal {t}"
+    let L ← whnfCore memTy.appFn!.appArg!
+    if L.isAppOf ``List.nil then
+      evalTactic (← `(tactic| exact List.forall_mem_nil _))
+      return
+    unless L.isAppOf ``List.cons do throwError "peelMemHandlers: not a list literal: {L}"
+    let some n := L.appFn!.appArg!.constName? | throwError "peelMemHandlers: not a generated constant"
+    let s := n.getString!
+    unless s.startsWith "mh_" do throwError "peelMemHandlers: unexpected constant {n}"
+    let rawN := n.getPrefix.str ("mraw_" ++ s.drop 3)
+    evalTactic (← `(tactic| refine List.forall_mem_cons.mpr ⟨?_, ?_⟩))
+    let gs ← getGoals
+    setGoals [gs.head!]
+    try
+      run (mkIdent n) (mkIdent rawN)
+    catch e =>
+      throwError "C06: memory body {n}: {what} FAILED ({e.toMessageData})"
+    unless (← getGoals).isEmpty do
+      throwError "C06: memory body {n}: {what} FAILED"
+    setGoals gs.tail
+
+open Lean Elab Tactic in
+elab "mem_uniform_all" : tactic =>
+  peelMemHandlers "does not depend on the loop variable / on what an earlier lane left in the staging array"
+    (fun a b => do evalTactic (← `(tactic| mem_uniform [$a:ident, $b:ident])))
+
+open Lean Elab Tactic in
+elab "mem_load_or_store_all" : tactic =>
+  peelMemHandlers "only loads or only stores"
+    (fun a b => do evalTactic (← `(tactic| mem_load_or_store [$a:ident, $b:ident])))
+
+/-- **Every translated DS / FLAT lane body is lane-uniform**: what iteration `i` writes, loads and stores
+    does not depend on `i`, nor on the bytes an earlier lane left in the staging array declared outside
+    the loop (`var buf [N]byte`) — every handler overwrites all of it before using it. -/
+theorem memory_bodies_uniform : ∀ h ∈ Gen.Lane.memHandlers, MemLaneUniform h := by
+  unfold Gen.Lane.memHandlers
+  mem_uniform_all
+
+example : mh_cdna3_runDSREAD2B32.stageLen = 8 ∧
+    (mraw_cdna3_runDSREAD2B32 ⟨1#32, 2#32, false, 0#64, 65536#64⟩
+      ⟨3, 16#64, [], [], fun k => BitVec.ofNat 8 k, List.replicate 8 0xff#8⟩).dst
+      = some [20#8, 21#8, 22#8, 23#8, 24#8, 25#8, 26#8, 27#8] := by decide
+
+/-- **`LoadOrStore`, proved about the translated bodies**: each DS / FLAT body performs no store on any
+    input, or performs no load and returns the same result on every memory. -/
+theorem memory_bodies_load_or_store : ∀ h ∈ Gen.Lane.memHandlers, MemLoadOrStore h := by
+  unfold Gen.Lane.memHandlers
+  mem_load_or_store_all
+
+/-- hence the skeleton instance of every translated memory handler meets the hypothesis of `seq_eq_par`,
+    `inactive_lanes_unchanged`, `inactive_lanes_no_access`, `lane_independent`, `perm_equivariant*` -/
+theorem memory_handlers_instantiate (h : MemHandler) (hm : h ∈ Gen.Lane.memHandlers) : LoadOrStore h.toHandler :=
+  loadOrStore_of_mem h (memory_bodies_load_or_store h hm)
+
+example : (Gen.Lane.memHandlers.any fun h => h.arch == "gcn3" && h.name == "runFlatStoreDWordX4") = true := by decide +kernel
+
+/-- inactive lanes of a translated DS / FLAT handler perform no access and change no memory (instance of
+    the generic theorem; no hypothesis left) -/
+theorem memory_inactive_lanes_no_access (h : MemHandler) (hm : h ∈ Gen.Lane.memHandlers) (ops : MemOps)
+    (exec : BitVec 64) (s : VState) :
+    ∃ new, (vexec h.toHandler ops exec s).log = s.log ++ new ∧
+      (∀ a ∈ new, a.lane < 64 ∧ exec.getLsbD a.lane = true) ∧
+      (vexec h.toHandler ops exec s).mem
+        = applyStores s.mem (activeStores h.toHandler ops (fun i => exec.getLsbD i) 64 (prologue h.toHandler s)) :=
+  inactive_lanes_no_access h.toHandler ops exec s (memory_handlers_instantiate h hm)
+
+/-- every DS / FLAT opcode-switch entry runs a handler whose body is translated, with the direction the
+    access facts say (load-only ⇔ the body never stores) -/
+theorem memory_dispatch_translated :
+    ((Gen.dispatch.filter (fun d => isMemFormat d.format)).all fun d =>
+      Gen.Lane.memHandlers.any fun h => h.arch == d.arch && h.name == d.handler) = true ∧
+    (Gen.Lane.memHandlers.all fun h => Gen.Lane.memFacts.any fun f =>
+      f.arch == h.arch && f.name == h.name && (memClass f == .loadOnly || memClass f == .storeOnly) &&
+      (f.accesses.all (·.isLds) == h.isLds)) = true := by
+  constructor <;> decide +kernel
+
+example : Gen.Lane.memHandlers.length ≥ 30 := by decide +kernel
+
+/-- every vector handler record of the `memory` / `helper` coverage class has its lane body translated
+    (`Gen.Lane.memHandlers`) — except the address helpers, which have no lane loop and touch no memory:
+    `flatPrecomputeScalarBase` (reads the SADDR pair once, before the loop; its two results are inputs
+    `hasSAddr`, `scalarBase` of the bodies), `flatAddr`, `flatAddrWithScalar` (translated as the pure function
+    `fnm_<arch>_flatAddrWithScalar` of the lane's address operand) -/
+theorem memory_rows_translated :
+    (Gen.Lane.coverage.all fun r =>
+      !(r.cov == .memory || r.cov == .helper) ||
+      Gen.Lane.memHandlers.any (fun h => h.arch == r.arch && h.name == r.name) ||
+      (["flatPrecomputeScalarBase", "flatAddr", "flatAddrWithScalar"].contains r.name &&
+        Gen.Lane.memFacts.any (fun f => f.arch == r.arch && f.name == r.name && memClass f == .noAccess))) = true := by
+  decide +kernel
+
+example : (Gen.Lane.coverage.filter fun r => r.cov == .memory && Gen.Lane.memHandlers.any (fun h => h.arch == r.arch && h.name == r.name)).length ≥ 30 := by
+  decide +kernel
 
 end C06
